@@ -328,12 +328,12 @@ Proof. reflexivity. Qed.
 Ltac list_norm := repeat rewrite <- app_assoc; cbn [app].
 
 Section Snippets.
-Variable w : char -> nat.
+Variable w : list char -> nat.
 
 Lemma snippet_single_line_ok : forall d line f m l,
   snippet_single_line w d line f m l =
   ROk (gutter d ++ nl ++ render_row d (mk_row (S line) f m l)
-       ++ marker_line d (swidth w f) (repeat CARET (swidth w m))).
+       ++ marker_line d (w f) (repeat CARET (w m))).
 Proof.
   intros d line f m l. unfold snippet_single_line, fapp, ok.
   replace (line + 1) with (S line) by lia. rewrite numrow_ok. cbn [fbind].
@@ -344,7 +344,7 @@ Qed.
 Lemma snippet_single_pos_ok : forall d line f l,
   snippet_single_pos w d line f l =
   ROk (gutter d ++ nl ++ render_pos_row d (mk_row (S line) f [] l)
-       ++ marker_line d (swidth w f) [CARET]).
+       ++ marker_line d (w f) [CARET]).
 Proof.
   intros d line f l. unfold snippet_single_pos, fapp, ok.
   replace (line + 1) with (S line) by lia. rewrite numrow_ok. cbn [fbind].
@@ -363,7 +363,7 @@ Definition opt_row (d n : nat) (o : option (list char)) : list piece :=
 
 Lemma snippet_multi_line_ok : forall d sl sf sla el ef ela i0 i1 dots i3,
   snippet_multi_line w d sl sf sla el ef ela i0 i1 dots i3 =
-  ROk (marker_line d (swidth w sf) [VEE]
+  ROk (marker_line d (w sf) [VEE]
        ++ render_row d (mk_row (S sl) sf sla [])
        ++ opt_row d (sl + 2) i0
        ++ match i1 with
@@ -372,7 +372,7 @@ Lemma snippet_multi_line_ok : forall d sl sf sla el ef ela i0 i1 dots i3,
           end
        ++ opt_row d el i3
        ++ render_row d (mk_row (S el) [] ef ela)
-       ++ marker_line d (swidth w ef - 1) [CARET]).
+       ++ marker_line d (w ef - 1) [CARET]).
 Proof.
   intros d sl sf sla el ef ela i0 i1 dots i3. unfold snippet_multi_line.
   replace (sl + 1) with (S sl) by lia. replace (el + 1) with (S el) by lia.
@@ -804,7 +804,7 @@ Proof. intros w fixC p. reflexivity. Qed.
 (* ---- C14, stated for UTF-8 strings `encode cs` --------------------------------------------------- *)
 
 (* totality, code as found: every valid span of a non-empty input *)
-Theorem total_span_as_found : forall (w : char -> nat) cs a b,
+Theorem total_span_as_found : forall (w : list char -> nat) cs a b,
   valid_str cs -> encode cs <> [] -> fmt_valid_span (encode cs) a b = true ->
   exists ps, display_span w false (encode cs) a b = ROk ps.
 Proof.
@@ -812,7 +812,7 @@ Proof.
 Qed.
 
 (* totality, repaired code (proposed_fixes/C14-F4a.diff): every valid span of every input *)
-Theorem total_span_repaired : forall (w : char -> nat) cs a b,
+Theorem total_span_repaired : forall (w : list char -> nat) cs a b,
   valid_str cs -> fmt_valid_span (encode cs) a b = true ->
   exists ps, display_span w true (encode cs) a b = ROk ps.
 Proof.
@@ -822,7 +822,7 @@ Proof.
 Qed.
 
 (* totality of display_position, as found and repaired, every input *)
-Theorem total_position : forall (w : char -> nat) fixC cs p,
+Theorem total_position : forall (w : list char -> nat) fixC cs p,
   valid_str cs -> fmt_valid_pos (encode cs) p = true ->
   exists ps, display_position w fixC (encode cs) p = ROk ps.
 Proof.
@@ -838,7 +838,7 @@ Qed.
 
 (* what the code shows for every valid span (as found and repaired): the rows from the line holding the
    byte before `start` to the line holding the byte before `end` *)
-Theorem span_lines_of_the_code : forall (w : char -> nat) fixA cs a b,
+Theorem span_lines_of_the_code : forall (w : list char -> nat) fixA cs a b,
   valid_str cs -> encode cs <> [] -> fmt_valid_span (encode cs) a b = true ->
   display_span w fixA (encode cs) a b
   = ROk (spec_span_at w (encode cs) a b (impl_line (encode cs) a) (impl_line (encode cs) b)).
@@ -847,7 +847,7 @@ Proof.
 Qed.
 
 (* rows, numbers, texts and marker columns are the demanded ones outside the line-start class *)
-Theorem rows_span_partial : forall (w : char -> nat) fixA cs a b,
+Theorem rows_span_partial : forall (w : list char -> nat) fixA cs a b,
   valid_str cs -> encode cs <> [] -> fmt_valid_span (encode cs) a b = true ->
   starts_at_line_start (encode cs) a = false ->
   display_span w fixA (encode cs) a b = ROk (spec_span w (encode cs) a b).
@@ -855,7 +855,7 @@ Proof.
   intros w fixA cs a b _ Hne Hv Hx. apply display_span_rows; [apply encode_lf_cuts|exact Hne|exact Hv|exact Hx].
 Qed.
 
-Theorem rows_position_partial : forall (w : char -> nat) fixC cs p,
+Theorem rows_position_partial : forall (w : list char -> nat) fixC cs p,
   valid_str cs -> fmt_valid_pos (encode cs) p = true ->
   p < length (encode cs) \/ fixC = true ->
   display_position w fixC (encode cs) p = ROk (spec_pos w (encode cs) p).
@@ -865,7 +865,7 @@ Proof.
   - rewrite <- E in *. apply display_position_rows; [apply encode_lf_cuts|congruence|exact Hv|exact Hc].
 Qed.
 
-Theorem position_eof_as_found : forall (w : char -> nat) cs,
+Theorem position_eof_as_found : forall (w : list char -> nat) cs,
   valid_str cs -> display_position w false (encode cs) (length (encode cs)) = ROk [].
 Proof. intros w cs _. apply display_position_eof_nothing. apply encode_lf_cuts. Qed.
 
@@ -889,17 +889,17 @@ Qed.
 
 (* ---- witnesses: where the code as found deviates from the statement ------------------------- *)
 
-Definition w1 : char -> nat := fun _ => 1.
+Definition w1 : list char -> nat := fun t => length t.
 
 (* F4a: Span::new("", 0, 0) *)
 Lemma display_span_empty_panics :
-  exists (w : char -> nat) (s : list byte) (a b : nat),
+  exists (w : list char -> nat) (s : list byte) (a b : nat),
     fmt_valid_span s a b = true /\ display_span w false s a b = RPanic.
 Proof. exists w1, [], 0, 0. split; vm_compute; reflexivity. Qed.
 
 (* F4b: Span::new("a\nb", 2, 3) is rendered from line 1 *)
 Lemma display_span_linestart_deviates :
-  exists (w : char -> nat) (s : list byte) (a b : nat),
+  exists (w : list char -> nat) (s : list byte) (a b : nat),
     fmt_valid_span s a b = true /\ starts_at_line_start s a = true /\
     display_span w false s a b <> ROk (spec_span w s a b).
 Proof.
@@ -909,7 +909,7 @@ Qed.
 
 (* F4c: Position::new("a", 1) renders nothing *)
 Lemma display_position_eof_deviates :
-  exists (w : char -> nat) (s : list byte) (p : nat),
+  exists (w : list char -> nat) (s : list byte) (p : nat),
     fmt_valid_pos s p = true /\ p = length s /\
     display_position w false s p = ROk [] /\ spec_pos w s p <> [].
 Proof.
